@@ -192,6 +192,28 @@ static void emit_misc(Rng & rng, const F::Factors & sp) {
     l.nats(rem.first); l.nats(rem.second) << m1 << m2; l.nats(jn); l.emit();
 }
 
+static void emit_skipidx(Rng & rng, const F::Factors & sp) {
+    F::PartialKeys keys; for (size_t k = 0; k < sp.size(); ++k) if (rng.coin(2, 3)) keys.push_back(k);
+    if (keys.empty()) keys.push_back(rng.below(sp.size()));
+    F::Factors full(sp.size()); for (size_t k = 0; k < sp.size(); ++k) full[k] = rng.below(sp[k]);
+    size_t tm = rng.coin(3, 4) ? keys[rng.below(keys.size())] : rng.below(sp.size());
+    auto [first, sm] = F::toIndexPartialAndSkip(keys, sp, full, tm);
+    Line l; l << "C14" << "skipidx"; l.nats(sp); l.nats(keys); l.nats(full) << tm << "|" << first << sm << F::toIndexPartial(keys, sp, full); l.emit();
+}
+static void emit_misc2(Rng & rng, const F::Factors & sp) {
+    auto a = randomPF(rng, sp), b = randomPF(rng, sp);
+    std::vector<std::pair<size_t, size_t>> matches;
+    auto mk = F::merge(a.first, b.first, &matches);
+    auto mv = F::merge(a.first, a.second, b.first, b.second);
+    size_t S = sp.size();
+    auto j = F::join(S, a, b);
+    F::Factors full(sp.size()); for (size_t k = 0; k < sp.size(); ++k) full[k] = rng.below(sp[k]);
+    auto tp = F::toPartialFactors(full);
+    Line l; l << "C14" << "misc2"; l.nats(a.first); l.nats(a.second); l.nats(b.first); l.nats(b.second) << S; l.nats(full) << "|";
+    l.nats(mk); l << (size_t)matches.size(); for (auto & m : matches) l << m.first; l << (size_t)matches.size(); for (auto & m : matches) l << m.second;
+    l.nats(mv); l.nats(j.first); l.nats(j.second); l.nats(tp.first); l.nats(tp.second); l.emit();
+}
+
 static double dy(Rng & rng) { return (double)rng.range(-32, 32) / 4.0; }
 
 static F::Factors randSpace(Rng & rng, int maxF, int maxD, size_t cap) {
@@ -749,7 +771,7 @@ void verif::verif_case(Rng & rng, long idx, const std::string & tier) {
         core_case(rng, idx, tier);
         {
             const F::Factors & spc = idx < g_nSpaces ? g_spaces[idx] : F::Factors{(size_t)rng.range(1, 4), (size_t)rng.range(1, 4), (size_t)rng.range(1, 4), (size_t)rng.range(1, 3)};
-            for (int t = 0; t < 4; ++t) { emit_tipf(spc, randomPF(rng, spc)); emit_misc(rng, spc); }
+            for (int t = 0; t < 4; ++t) { emit_tipf(spc, randomPF(rng, spc)); emit_misc(rng, spc); emit_skipidx(rng, spc); emit_misc2(rng, spc); }
             if (idx < g_nSpaces && spc.size() <= 3)     // every key subset with every value tuple
                 for (size_t mask = 1; mask < (1u << spc.size()); ++mask) {
                     F::PartialKeys keys; for (size_t k = 0; k < spc.size(); ++k) if (mask & (1u << k)) keys.push_back(k);
